@@ -280,7 +280,7 @@ fn decode(v: usize, len: usize, mixed: bool, mut k: u64) -> Vec<(u8, Pa)> {
 
 pub fn run_c18(run: &Run) {
     run.set_rule("explicit-state exploration of the real NoGoodStore: every sequence of adds (mode, non-empty nogood) up to the stated length over V variables; in each reached store, conclusions() and the conclusion closure are queried for every one of the 3^V partial interpretations and judged by brute force over the 2^V total assignments. Non-trivial: sequences containing a nogood together with a strict sub-nogood of it.");
-    run.assume("a nogood is a non-empty partial assignment; a total assignment is excluded iff it extends an added nogood");
+    run.assume("a nogood is a partial assignment; a total assignment is excluded iff it extends an added nogood (the empty nogood excludes everything)");
     run.assume("V <= 4 variables and sequences of length <= 3; longer histories are outside the bound");
     pair_checks(run, 3);
     let plan: Vec<(usize, usize, bool)> = if run.quick() {
@@ -317,6 +317,43 @@ pub fn run_c18(run: &Run) {
             run.add_outcomes(st.outcomes);
         }
         run.sample(seq_json(v, &decode(v, len, mixed, total / 3)));
+    }
+    // the empty nogood (no literal: violated by every interpretation; the search learns it from a model of an ADF without
+    // statements): all sequences of length <= 2 over ALL 3^V partial assignments in which it occurs
+    {
+        let v = 3usize;
+        let na = 3u64.pow(v as u32); // index na-1 is the empty nogood
+        let mut seqs: Vec<Vec<(u8, Pa)>> = vec![];
+        for m in 0..3u8 {
+            seqs.push(vec![(m, pa_from(v, (na - 1) as usize))]);
+            for g in 0..na {
+                for m2 in 0..3u8 {
+                    seqs.push(vec![(m, pa_from(v, (na - 1) as usize)), (m2, pa_from(v, g as usize))]);
+                    if g != na - 1 {
+                        seqs.push(vec![(m2, pa_from(v, g as usize)), (m, pa_from(v, (na - 1) as usize))]);
+                    }
+                }
+            }
+        }
+        let res = run.par_family(
+            "V=3 add sequences of length <= 2 that contain the empty nogood",
+            seqs.len() as u64,
+            St::default,
+            |st, k| {
+                let seq = &seqs[k as usize];
+                let mut seen = std::collections::BTreeSet::new();
+                for (kind, msg) in case(v, seq, st) {
+                    if seen.insert(kind.clone()) {
+                        run.violation(&kind, format!("{} after adds {:?}", msg, seq), seq_json(v, seq));
+                    }
+                }
+            },
+            &|k| seq_json(v, &seqs[k as usize]),
+        );
+        for st in res {
+            run.add_counts(st.stores, st.queries, st.queries, st.nontrivial);
+            run.add_outcomes(st.outcomes);
+        }
     }
     // the same exploration embedded into larger stores: the three explored variables sit at positions that are
     // congruent modulo 64, around 63/64/65 and around 65535/65536 (bitmap word and container boundaries)
